@@ -32,7 +32,7 @@ def tla_set(items):
 
 
 def _java(args, env=None, cwd=SPECS, timeout=3600, heap='2g'):
-    cmd = ['java', '-XX:+UseParallelGC', '-Xmx' + heap, '-cp', JAR_CP, 'tlc2.TLC'] + args
+    cmd = ['java', '-XX:+UseParallelGC', '-Xmx' + heap, '-DTLA-Library=' + SPECS, '-cp', JAR_CP, 'tlc2.TLC'] + args
     full_env = dict(os.environ)
     if env:
         full_env.update(env)
@@ -145,13 +145,21 @@ def validate(spec, traces, enforced, known=(), name='run', jvms=14, extra_consts
 _MC_DISTINCT = re.compile(r'(\d+) states generated, (\d+) distinct states found')
 
 
-def model_check(spec, cfg_text, name, workers=16, simulate=None, timeout=1800, heap='8g', extra_args=()):
-    ''' Run TLC on ``specs/<spec>.tla`` with the given cfg text.
+def model_check(spec, cfg_text, name, workers=16, simulate=None, timeout=1800, heap='8g', extra_args=(),
+                module_text=None):
+    ''' Run TLC on ``specs/<spec>.tla`` with the given cfg text.  With ``module_text`` the root
+    module ``<spec>.tla`` is written to the work directory (it EXTENDS modules of specs/, found
+    through TLA-Library), so that one specification serves many generated configurations.
     :return: dict(ok, states, distinct, out, violated)
     '''
     base = os.path.join(WORK, name)
     shutil.rmtree(base, ignore_errors=True)
     os.makedirs(base, exist_ok=True)
+    spec_path = os.path.join(SPECS, spec + '.tla')
+    if module_text is not None:
+        spec_path = os.path.join(base, spec + '.tla')
+        with open(spec_path, 'w') as out:
+            out.write(module_text)
     cfg = os.path.join(base, 'mc.cfg')
     with open(cfg, 'w') as out:
         out.write(cfg_text)
@@ -160,10 +168,10 @@ def model_check(spec, cfg_text, name, workers=16, simulate=None, timeout=1800, h
     if simulate:
         args += ['-simulate', simulate]
     args += list(extra_args)
-    args += [os.path.join(SPECS, spec + '.tla')]
+    args += [spec_path]
     t0 = time.time()
     try:
-        rc, out = _java(args, timeout=timeout, heap=heap)
+        rc, out = _java(args, timeout=timeout, heap=heap, cwd=(base if module_text is not None else SPECS))
     except subprocess.TimeoutExpired:
         shutil.rmtree(meta, ignore_errors=True)
         raise MachineryError('TLC timed out on %s/%s' % (spec, name))
